@@ -12,7 +12,7 @@ func init() {
 	Props["C14"] = Prop{
 		Title: "SugaredLogger never drops or misattributes loosely-typed arguments",
 		Fn:    checkC14,
-		Explanation: "Decides, by enumerating the exits of one iteration of the positional sweep (every back edge and every break edge of the loop in sweetenFields), that each exit advances the index by exactly the number of arguments it read (1 or 2, the second read guarded against running past the end) and accounts for what it read - appended to the fields, appended to the invalid-pair list, or reported through an error-level entry on every path to that exit; that only three representations are ever appended (the typed Field itself, zap.Error(err) for the first bare error only, zap.Any(key, value) for string-keyed pairs), that the first-error flag is set on the bare-error path only, and that collected invalid pairs are reported after the loop; the routing table of the 32 sugared methods (level, template/args/context slots, log vs logln) and of With/WithLazy; and the message helpers (Sprintln minus exactly its last byte; template verbatim without args; Sprintf / Sprint). " +
+		Explanation: "Decides, by exploring every path of sweetenFields for up to three sweeps of its loop (index concrete, number of arguments symbolic and tracked as an interval from the path's own comparisons) and replaying each path's events - reads of args[k], type tests, appends, error entries, return - against the documented behaviour: arguments are consumed strictly in order and exactly once (one for a typed field, a bare error or a dangling last key, two for a pair), args[k] is read only where len(args) > k is established, a typed Field is appended as is, the first bare error as zap.Error and every later one reported, a string-keyed pair as zap.Any(key, value), any other pair recorded with its position and reported after the sweep, a dangling key reported only where it is established to be the last argument, and the accumulated fields are returned only when every argument is consumed - whatever loop shape, index bookkeeping or helper split the code uses; the routing table of the 32 sugared methods (level, template/args/context slots, log vs logln) and of With/WithLazy; and, by path exploration from SugaredLogger.log / logln to Logger.Check, the message: Sprintln(args...) minus exactly its last byte for the *ln methods; the template verbatim exactly when there are no arguments, Sprintf(template, args...) for a non-empty template, Sprint(args...) (or the lone string argument itself) for an empty one. " +
 			"NOT decided: fmt's formatting, what zap.Any does with each value (C03).",
 		Assumptions: commonAssumptions,
 	}
